@@ -253,4 +253,22 @@ class WiringMonitor(Monitor):
             x, y, a, b = wp
             return viol("amplitude",
                         f"<{y}|U|{x}> real {a:.6g} model {b:.6g} (|diff| {worst:.3g})")
+        # the same transition amplitudes as the library's own Simulator reports
+        # them (its herald placement is separate code from U_full / heralds)
+        import lightworks as lw  # noqa: PLC0415
+        from lightworks import emulator  # noqa: PLC0415
+        some = rng.sample(pairs, min(len(pairs), 5))
+        try:
+            sim = emulator.Simulator(c)
+            for x, y in some:
+                res = sim.simulate(lw.State(x), [lw.State(y)])
+                a = complex(res.array[0, 0])
+                b = r.amp(x, y)
+                if abs(a - b) > TOL:
+                    return viol("simulator_amplitude",
+                                f"Simulator <{y}|U|{x}> = {a:.6g}, model "
+                                f"{b:.6g}")
+        except Exception as e:  # noqa: BLE001
+            return viol("simulator_raised", repr(e)[:160])
+        w.probe("simulator_pairs", len(some))
         return []
